@@ -424,4 +424,146 @@ def cutAux : Bytes → Bytes → List Bytes → List Bytes × Bytes
 
 def cutLines (stream : Bytes) : List Bytes × Bytes := cutAux stream [] []
 
+/-! ### C13End: read failures by kind; failures of `Message.Source()` and of the scanner
+
+  `readLine` sets a read deadline of `config.POP3.Timeout` before every read and uses `ReadString('\n')`, which returns
+  the error together with the partial bytes; `readLine` drops those bytes.  So — unlike the SMTP session — a partial
+  line is never a command, whatever the error.  startSession then sends nothing (io.EOF), "-ERR Idle timeout, bye bye"
+  (net.Error with Timeout()) or "-ERR Connection error, sorry" (anything else), and the loop ends; `processDeletes` is
+  called from the QUIT case of `transactionHandler` only. -/
+
+/-- how the input ends, by kind (`Term.readError` covers the last two) -/
+inductive TermX | eof | timeout | neterr
+deriving DecidableEq, Repr
+
+def TermX.toTerm : TermX → Term
+  | .eof => .eof
+  | .timeout => .readError
+  | .neterr => .readError
+
+inductive Bye | idle | connErr
+deriving DecidableEq, Repr
+
+/-- the exact last lines (without CRLF) -/
+def byeText : Bye → Bytes
+  | .idle => [45, 69, 82, 82, 32, 73, 100, 108, 101, 32, 116, 105, 109, 101, 111, 117, 116, 44, 32, 98, 121, 101, 32, 98, 121, 101]
+  | .connErr => [45, 69, 82, 82, 32, 67, 111, 110, 110, 101, 99, 116, 105, 111, 110, 32, 101, 114, 114, 111, 114, 44, 32, 115, 111, 114, 114, 121]
+
+def byeOf (t : TermX) (en : End) : Option Bye :=
+  match en, t with
+  | .readError, .timeout => some .idle
+  | .readError, .neterr => some .connErr
+  | _, _ => none
+
+/-- what `msg.Source()` and reading from the returned reader do for one message.  `readFails k`: the reader hands out
+    `k` bytes without error and fails (not with EOF) when asked for more — the io.Reader discipline of os.File and of
+    every reader that returns data and error in separate calls. -/
+inductive SrcFault
+  | none
+  | openFails
+  | readFails (k : Nat)
+deriving DecidableEq, Repr
+
+/-- how sendMessage / sendMessageTop finish after the status line "+OK …" has ALREADY been sent:
+    `dot`: "."                                   (normal)
+    `dotErr`: ".", then "-ERR Failed to RETR that message, internal error"   (scanner.Err() != nil)
+    `err`: "-ERR Failed to RETR …" alone, NO "." (Source() failed) -/
+inductive Tail | dot | dotErr | err
+deriving DecidableEq, Repr
+
+structure FaultReply where
+  lines : List Bytes
+  tail : Tail
+deriving DecidableEq, Repr
+
+/-- the input ends with a non-empty unterminated line -/
+def unterminated (b : Bytes) : Bool :=
+  match b.getLast? with
+  | some c => c != 10
+  | none => false
+
+/-- `sendMessage`: every scanned token is sent (the unterminated rest before the failure too: bufio.Scanner splits what
+    it has with atEOF = true once the reader has failed), then ".", then the -ERR line -/
+def sendMessageF (f : SrcFault) (src : Bytes) : FaultReply :=
+  match f with
+  | .none => ⟨retrLines src, .dot⟩
+  | .openFails => ⟨[], .err⟩
+  | .readFails k => ⟨retrLines (src.take k), .dotErr⟩
+
+/-- `topLoop` that also tells whether the loop was left by `break` and which tokens were still unscanned then -/
+def topLoopB : List Bytes → Bool → Nat → List Bytes → List Bytes × Bool × List Bytes
+  | [], _, _, acc => (acc.reverse, false, [])
+  | l :: ls, inBody, k, acc =>
+    let l' := dotStuff l
+    if inBody then
+      (if k < 1 then (acc.reverse, true, ls) else topLoopB ls true (k - 1) (l' :: acc))
+    else topLoopB ls (l' == []) k (l' :: acc)
+
+/-- `sendMessageTop`: after `break` the scanner's error is set only if the token it had just scanned was the
+    unterminated rest in front of the failure (scanning it needed the read that failed); without `break` the loop
+    ends by the failure itself -/
+def sendMessageTopF (f : SrcFault) (src : Bytes) (n : Nat) : FaultReply :=
+  match f with
+  | .none => ⟨topLines src n, .dot⟩
+  | .openFails => ⟨[], .err⟩
+  | .readFails k =>
+    let r := topLoopB (scanLines (src.take k)) false n []
+    ⟨r.1, if r.2.1 then (if r.2.2.isEmpty && unterminated (src.take k) then .dotErr else .dot) else .dotErr⟩
+
+/-- the message a RETR / TOP line addresses (after all argument checks), with TOP's line count -/
+def target (s : St) (line : Bytes) : Option (Msg × Option Nat) :=
+  match parseCmd line with
+  | none => none
+  | some (cmd, args) =>
+    match verbOf cmd, args with
+    | some .retr, [a] => (msgArg s a).bind (fun n => (idx? s.msgs n).map (fun m => (m, none)))
+    | some .top, [a, b] =>
+      match msgArg s a, parseInt32 b with
+      | some n, some k => if k < 0 then none else (idx? s.msgs n).map (fun m => (m, some k.toNat))
+      | _, _ => none
+    | _, _ => none
+
+/-- `some`: the status line of the reply is followed by these lines and this tail instead of the reply's own -/
+def faultOf (flt : Bytes → SrcFault) (s : St) (line : Bytes) (o : Outcome) : Option FaultReply :=
+  match o with
+  | .ok _ (.okRetr _ _) _ =>
+    (match target s line with
+     | some (m, _) => if flt m.id = .none then none else some (sendMessageF (flt m.id) m.src)
+     | none => none)
+  | .ok _ (.okTop _) _ =>
+    (match target s line with
+     | some (m, some n) => if flt m.id = .none then none else some (sendMessageTopF (flt m.id) m.src n)
+     | _ => none)
+  | _ => none
+
+structure OutF where
+  out : Outcome                 -- exactly `step`: state, reply class and payload, removals
+  fault : Option FaultReply
+deriving Repr
+
+/-- one loop iteration when `Source()` of some messages misbehaves: the state machine does not notice -/
+def stepF (flt : Bytes → SrcFault) (store : Bytes → List Msg) (s : St) (line : Bytes) : OutF :=
+  let o := step store s line
+  ⟨o, faultOf flt s line o⟩
+
+/-- the fault replies along a session, one entry per processed line -/
+def faultsAlong (flt : Bytes → SrcFault) : St → List Ev → List (Option FaultReply)
+  | _, [] => []
+  | s, ev :: evs =>
+    if s.phase = .quit then []
+    else
+      match step ev.store s ev.line with
+      | .ok s' _ _ => (stepF flt ev.store s ev.line).fault :: (if ev.sendOk then faultsAlong flt s' evs else [])
+      | _ => []
+
+structure TraceX where
+  base : Trace                          -- `session` with the read failure kinds merged
+  faults : List (Option FaultReply)
+  bye : Option Bye
+
+/-- a whole session with the kind of read failure and the source faults -/
+def sessionX (t : TermX) (flt : Bytes → SrcFault) (evs : List Ev) : TraceX :=
+  let tr := session t.toTerm evs
+  ⟨tr, faultsAlong flt St.init evs, byeOf t tr.ending⟩
+
 end Ibx.Model.Pop3
